@@ -30,6 +30,9 @@ Property clause → theorem
     `unwrapped_loop_ok_if_no_failure`. The table obligations now demand the wrapper: taking it away again fails
     `unwrapped_calls_reviewed`, `units_of_work_wrapped` and `table_pins`, and the harness reports the leak (`uloop` lines).
 * every unit of work the property names sits in its own wrapper → `units_of_work_wrapped` (table).
+* "… or reports failure at any point": the wrapper only sees what the closure returns → `wrapped_units_propagate_errors`
+  (every error produced inside a closure is returned, up to the reviewed list `swallowReviewed`),
+  `units_use_their_cache_context`, `per_item_units_can_report_failure` (table).
 * the table is not empty / not stale → `table_pins`.
 
 Level: proof of the wrapper logic and of the table obligations; what a Go panic and a real store write do is
@@ -450,6 +453,67 @@ theorem units_of_work_wrapped :
     hasUnit "esm.BeginBlocker" "BeginBlocker" false 1 = true ∧                  -- the emergency-shutdown hook as a whole
     hasUnit "lend.BeginBlocker" "BeginBlocker" false 1 = true := by decide
 
+/-! ### Error propagation inside the wrapped units (`errorSites`)
+
+`ApplyFuncIfNoError` rolls back only if the closure *returns* the error (or panics). The extractor lists, for every
+closure and two levels into the module's own keeper functions it calls, every call that produces an error and what
+happens to it. Anything but `returned` (and `never-fails`: the callee's return statements all return a nil error) must
+be on this reviewed list `(blocker, enclosing function, callee, disposition)`. -/
+
+def swallowReviewed : List (String × String × String × String) := [
+  -- liquidity clean-up every 150 blocks: a void helper; the params lookup is its first statement (nothing written yet);
+  -- a market order that cannot be placed is skipped, the accumulated fees stay where they are for the next round
+  ("liquidity.BeginBlocker", "ConvertAccumulatedSwapFeesWithSwapDistrToken", "k.GetGenericParams", "swallowed:return-nil"),
+  ("liquidity.BeginBlocker", "ConvertAccumulatedSwapFeesWithSwapDistrToken", "k.MarketOrder", "swallowed:logged"),
+  -- values only: an inactive price makes the value zero / the following guarded call fail; no write depends on the error
+  ("liquidation.BeginBlocker", "UpdateLockedBorrows", "k.market.CalcAssetPrice", "blank"),
+  ("auctionsV2.BeginBlocker", "CloseEnglishAuction", "k.GetUserBid", "blank"),           -- ids come from the auction's own bid list
+  ("auctionsV2.BeginBlocker", "PlaceDutchAuctionBid", "k.vault.GetAmountOfOtherToken", "blank"),
+  -- the incentive hook is ONE unit that by design logs a failing sub-step and goes on; it never reports failure itself.
+  -- Its sub-steps are loops over independent records (gauges, external-reward records, users): the fallible operation of
+  -- an iteration (kill-switch / ESM test, bank send) comes before that iteration's writes, a failed payout is skipped.
+  -- Exercised: `hooks.sub.single` lines (which sub-steps return an error, and after which writes).
+  ("rewards.BeginBlocker", "TriggerAndUpdateEpochInfos", "k.InitateGaugesForDuration", "swallowed:logged"),
+  ("rewards.BeginBlocker", "InitateGaugesForDuration", "k.BeginRewardDistributions", "swallowed:continue"),
+  ("rewards.BeginBlocker", "InitateGaugesForDuration", "k.liquidityKeeper.TransferFundsForSwapFeeDistribution", "swallowed:continue"),
+  ("rewards.BeginBlocker", "BeginBlocker", "k.DistributeExtRewardLocker", "swallowed:logged"),
+  ("rewards.BeginBlocker", "DistributeExtRewardLocker", "k.bank.SendCoinsFromModuleToAccount", "swallowed:continue"),
+  ("rewards.BeginBlocker", "BeginBlocker", "k.DistributeExtRewardVault", "swallowed:logged"),
+  ("rewards.BeginBlocker", "DistributeExtRewardVault", "k.bank.SendCoinsFromModuleToAccount", "swallowed:continue"),
+  ("rewards.BeginBlocker", "BeginBlocker", "k.DistributeExtRewardLend", "swallowed:logged"),
+  ("rewards.BeginBlocker", "DistributeExtRewardLend", "k.bank.SendCoinsFromModuleToAccount", "swallowed:continue"),
+  ("rewards.BeginBlocker", "BeginBlocker", "k.DistributeExtRewardStableVault", "swallowed:logged"),
+  ("rewards.BeginBlocker", "DistributeExtRewardStableVault", "k.liquidityKeeper.GetAmountFarmedForAssetID", "swallowed:logged"),
+  ("rewards.BeginBlocker", "DistributeExtRewardStableVault", "k.bank.SendCoinsFromModuleToAccount", "swallowed:continue"),
+  -- the emergency-shutdown hook is ONE unit over all apps; a stage that fails for one app (`continue`) must not block the
+  -- other apps. Each stage is a resumable loop: per position the lookups (snapshot price, pair, asset) and the bank
+  -- operation precede the writes, the stage's completion flag is set only after the loop.
+  ("esm.BeginBlocker", "BeginBlocker", "k.SetUpCollateralRedemptionForVault", "swallowed:continue"),
+  ("esm.BeginBlocker", "BeginBlocker", "k.SetUpCollateralRedemptionForStableVault", "swallowed:continue"),
+  ("esm.BeginBlocker", "BeginBlocker", "k.SetUpDebtRedemptionForCollector", "swallowed:continue"),
+  ("esm.BeginBlocker", "BeginBlocker", "k.SetUpShareCalculation", "swallowed:continue")
+]
+
+def errOk (s : ErrSite) : Bool :=
+  s.disp == "returned" || s.disp == "never-fails" || swallowReviewed.contains (s.blocker, s.inFn, s.callee, s.disp)
+
+set_option maxRecDepth 200000 in
+/-- **Wrapped units propagate their errors**: inside every `ApplyFuncIfNoError` closure (and two levels into the own
+keeper functions it calls) every error a call produces reaches the closure's return — so that the wrapper rolls the
+unit back — except at the reviewed sites above. A closure that logs the error of its step and returns nil fails here. -/
+theorem wrapped_units_propagate_errors : ∀ s ∈ errorSites, errOk s = true := by decide
+
+/-- every closure works on the cache context it is handed, never on a context variable of the enclosing function -/
+theorem units_use_their_cache_context : ∀ u ∈ units, u.liveCtx = false := by decide
+
+/-- the closures that can never return a non-nil error are exactly the reviewed four: the liquidity clean-up (its body
+has no fallible call), the two second-generation auction passes (their items are units of their own) and the incentive
+hook (see `swallowReviewed`); every per-item closure has a failing return path -/
+theorem per_item_units_can_report_failure :
+    (units.filter fun u => !u.returnsNonNil).map (fun u => (u.blocker, u.inFn, u.nest)) =
+      [("liquidity.BeginBlocker", "BeginBlocker", 1), ("auctionsV2.BeginBlocker", "BeginBlocker", 1),
+       ("auctionsV2.BeginBlocker", "BeginBlocker", 1), ("rewards.BeginBlocker", "BeginBlocker", 1)] := by decide
+
 /-- nothing outside the two vault sweeps depends on the vault counter, and nothing else is conditional -/
 theorem d3_only_in_the_vault_sweeps :
     (unwrapped.filter fun e => conditionalD3.contains (key e)).length ≤ 2 := by decide
@@ -460,7 +524,10 @@ set_option maxRecDepth 200000 in
 removes two of them — and spot entries, so that an extractor that returns little or nothing fails here. -/
 theorem table_pins :
     blockers.length = 12 ∧ units.length = 17 ∧ unwrapped.length ≥ 150 ∧ wrappedEntries.length ≥ 150 ∧
-    entries.length ≥ 380 ∧
+    entries.length ≥ 380 ∧ errorSites.length ≥ 120 ∧
+    (errorSites.any fun s => s.blocker == "liquidationsV2.BeginBlocker" && s.inFn == "LiquidateVaults" &&
+        s.callee == "k.LiquidateIndividualVault" && s.disp == "returned") = true ∧
+    (errorSites.any fun s => s.blocker == "liquidation.BeginBlocker" && s.callee == "k.CreateLockedVault" && s.disp == "returned") = true ∧
     (blockers.map (·.name)) = ["liquidity.BeginBlocker", "liquidity.EndBlocker", "liquidation.BeginBlocker",
       "liquidationsV2.BeginBlocker", "auction.BeginBlocker", "auctionsV2.BeginBlocker", "rewards.BeginBlocker",
       "rewards.EndBlocker", "lend.BeginBlocker", "esm.BeginBlocker", "market.BeginBlocker", "bandoracle.BeginBlocker"] ∧
